@@ -82,11 +82,27 @@ def r2_result_keys(ctx):
     if not pops and not dels:
         ctx.fail(fn, "reset() removes keys",
                  "FitProperties.reset no longer removes anything")
+    import re as _re
     for c in pops:
         conds = conditions_at(c)
         var = norm(c.args[0]) if c.args else "?"
         good = len(conds) == 1 and (not conds[0].pol) and \
             conds[0].text == f"{var} in FP_DEFAULT"
+        # the selection written as a set difference (a snapshot by
+        # construction): every key of self that is not a setting
+        lp0 = c
+        while lp0 is not None and not isinstance(lp0, ast.For):
+            lp0 = getattr(lp0, "_parent", None)
+        it0 = norm(lp0.iter).replace(" ", "") if lp0 is not None else ""
+        snap = r"(?:frozenset|set)\(self(?:\.keys\(\))?\)"
+        dflt = r"(?:(?:frozenset|set)\()?FP_DEFAULT(?:\.keys\(\))?\)?"
+        if not conds and lp0 is not None and norm(lp0.target) == var and (
+                _re.fullmatch(snap + r"\.difference\(" + dflt + r"\)", it0)
+                or _re.fullmatch(snap + "-" + dflt, it0)
+                or _re.fullmatch(r"self\.keys\(\)-" + dflt, it0)):
+            ctx.ok(c, f"reset pops the keys of self outside FP_DEFAULT "
+                   f"({it0})")
+            continue
         ctx.check(good, c, f"reset pops {var} iff not in FP_DEFAULT",
                   "reset() does not remove exactly the keys outside "
                   "FP_DEFAULT (condition: "
